@@ -68,6 +68,13 @@ def check_case(rep, c, rng, systems, swap=False):
                 or list(r.dsto(LABELS)) != [net[l] for l in LABELS]:
             rep.violation("equation", "reaction:sto-vectors", dict(detail, text=text))
             return
+        # the vectors are functions of the label list they are asked for: another order, a sub-list, a list with a stranger
+        for labs in (LABELS[::-1], LABELS[1:3], [LABELS[2], "Zz", LABELS[0]], LABELS):
+            want_s = [ssto.get(l, 0) for l in labs]
+            want_p = [psto.get(l, 0) for l in labs]
+            if list(r.ssto(labs)) != want_s or list(r.psto(labs)) != want_p or list(r.dsto(labs)) != [b - a for a, b in zip(want_s, want_p)]:
+                rep.violation("equation", "reaction:sto-vectors:other-label-list", dict(detail, text=text, labels=labs, got=[list(r.ssto(labs)), list(r.psto(labs))]))
+                return
         if r.order() != order or r.rorder() != rorder:
             rep.violation("equation", "reaction:order", dict(detail, text=text, got=[r.order(), r.rorder()], spec=[order, rorder]))
             return
